@@ -77,6 +77,23 @@ func symAwareBinop(fr *frame, instr *ssa.BinOp) value {
 	if _, ok := b.(symString); ok {
 		return fr.i.x.symStringBinop(instr.Op, a, b)
 	}
+	if (instr.Op == token.EQL || instr.Op == token.NEQ) && isReflectValue(instr.X.Type()) {
+		// v == reflect.ValueOf(nil) and the like: the real comparison is on (type, pointer, flag) words
+		ta, tb := rV2T(a).t, rV2T(b).t
+		var r bool
+		switch {
+		case ta == nil || tb == nil:
+			r = ta == nil && tb == nil
+		case rVAddr(a) != nil || rVAddr(b) != nil:
+			r = rVAddr(a) == rVAddr(b) && types.Identical(ta, tb)
+		default:
+			panic(unsupported("== on two valid, non-addressable reflect.Values"))
+		}
+		if instr.Op == token.NEQ {
+			return !r
+		}
+		return r
+	}
 	if instr.Op == token.EQL || instr.Op == token.NEQ {
 		switch a.(type) {
 		case structure, array, iface:
